@@ -316,50 +316,187 @@ Proof.
   do 4 (apply andb_true_iff in H; destruct H as [H ?]). repeat split; assumption.
 Qed.
 
+(* every entry below an embedded field of type t carries one of the names of t's closure *)
+Lemma raw_fields_names : forall pkg fuel depth pre is_new fs l e,
+  raw_fields pkg fuel depth pre is_new fs = Some l -> emb_named fs -> In e l ->
+  exists n o, n <= fuel /\ In o (level_fields pkg n fs pre) /\ occ_name o = f_name e.
+Proof.
+  intros pkg fuel. induction fuel as [|fuel IHf]; intros depth pre is_new fs.
+  - induction fs as [|[[nm ft] emb] fs IH]; intros l e H EN He.
+    + inversion H; subst. destruct He.
+    + rewrite raw_fields_cons in H. assert (ENt := emb_named_tail _ _ EN). destruct emb.
+      * rewrite raw_type_unfold in H. destruct (struct_of pkg ft); [discriminate|].
+        destruct (raw_fields pkg 0 depth pre is_new fs) as [b|] eqn:Eb; [|discriminate].
+        inversion H; subst l. cbn [app] in He.
+        destruct (IH b e eq_refl ENt He) as [n [o [A [B C]]]]. exists n, o. split; auto. split; auto.
+        rewrite level_fields_cons. apply in_or_app. right. exact B.
+      * destruct (raw_fields pkg 0 depth pre is_new fs) as [b|] eqn:Eb; [|discriminate].
+        inversion H; subst l. destruct He as [He|He].
+        -- subst e. exists 0, (pre ++ [nm], (nm, ft, false)). split; [lia|]. split; [|reflexivity].
+           cbn [level_fields map]. left. reflexivity.
+        -- destruct (IH b e eq_refl ENt He) as [n [o [A [B C]]]]. exists n, o. split; auto. split; auto.
+           rewrite level_fields_cons. apply in_or_app. right. exact B.
+  - induction fs as [|[[nm ft] emb] fs IH]; intros l e H EN He.
+    + inversion H; subst. destruct He.
+    + rewrite raw_fields_cons in H. assert (ENt := emb_named_tail _ _ EN). destruct emb.
+      * assert (Hnm : nm = short_name ft) by (apply EN; left; reflexivity).
+        destruct (raw_type pkg (S fuel) depth pre ft is_new) as [a|] eqn:Ea; [|discriminate].
+        destruct (raw_fields pkg (S fuel) depth pre is_new fs) as [b|] eqn:Eb; [|discriminate].
+        inversion H; subst l. apply in_app_or in He. destruct He as [He|He].
+        -- rewrite raw_type_unfold in Ea. destruct (struct_of pkg ft) as [si|] eqn:Es; [|inversion Ea; subst; destruct He].
+           destruct (raw_fields pkg fuel (S depth) (f_path (embedded_entry ft depth pre)) is_new (struct_fields si)) as [l'|] eqn:El;
+             [|discriminate].
+           inversion Ea; subst a. destruct He as [He|He].
+           ++ subst e. exists 0, (pre ++ [nm], (nm, ft, true)). split; [lia|]. split.
+              ** cbn [level_fields map]. left. reflexivity.
+              ** rewrite embedded_entry_name. unfold occ_name. cbn [snd fst]. exact Hnm.
+           ++ rewrite embedded_entry_path in El.
+              destruct (IHf (S depth) (pre ++ [short_name ft]) is_new (struct_fields si) l' e El
+                            (struct_fields_emb_named si) He) as [n [o [A [B C]]]].
+              exists (S n), o. split; [lia|]. split; auto.
+              rewrite level_fields_cons. apply in_or_app. left. cbn [level_fields flat_map]. rewrite Es, app_nil_r.
+              subst nm. exact B.
+        -- destruct (IH b e eq_refl ENt He) as [n [o [A [B C]]]]. exists n, o. split; auto. split; auto.
+           rewrite level_fields_cons. apply in_or_app. right. exact B.
+      * destruct (raw_fields pkg (S fuel) depth pre is_new fs) as [b|] eqn:Eb; [|discriminate].
+        inversion H; subst l. destruct He as [He|He].
+        -- subst e. exists 0, (pre ++ [nm], (nm, ft, false)). split; [lia|]. split; [|reflexivity].
+           cbn [level_fields map]. left. reflexivity.
+        -- destruct (IH b e eq_refl ENt He) as [n [o [A [B C]]]]. exists n, o. split; auto. split; auto.
+           rewrite level_fields_cons. apply in_or_app. right. exact B.
+Qed.
+
+(* the fields at a level do not depend on the path prefix *)
+Lemma level_fields_reprefix : forall pkg m fs p1 p2 x,
+  In x (level_fields pkg m fs p1) -> exists y, In y (level_fields pkg m fs p2) /\ snd y = snd x.
+Proof.
+  intros pkg m. induction m as [|m IHm]; intros fs p1 p2 x Hx; simpl in Hx.
+  - apply in_map_iff in Hx. destruct Hx as [tf [E Htf]]. subst x. exists (p2 ++ [fst (fst tf)], tf). split; auto.
+    simpl. apply in_map_iff. exists tf. auto.
+  - apply in_flat_map in Hx. destruct Hx as [[[nm ft] emb] [Htf Hx]]. destruct emb; [|destruct Hx].
+    destruct (struct_of pkg ft) as [si'|] eqn:E; [|destruct Hx].
+    destruct (IHm _ _ (p2 ++ [nm]) _ Hx) as [y [Hy Ey]]. exists y. split; auto.
+    simpl. apply in_flat_map. exists (nm, ft, true). split; auto. rewrite E. exact Hy.
+Qed.
+
+Lemma raw_type_names : forall pkg fuel t is_new l e,
+  raw_type pkg fuel 0 [] t is_new = Some l -> In e l -> In (f_name e) (names_below pkg fuel t).
+Proof.
+  intros pkg fuel t is_new l e H He. unfold names_below. rewrite raw_type_unfold in H.
+  destruct (struct_of pkg t) as [si|] eqn:Es; [|inversion H; subst; destruct He].
+  destruct fuel as [|fuel]; [discriminate|].
+  destruct (raw_fields pkg fuel 1 (f_path (embedded_entry t 0 [])) is_new (struct_fields si)) as [l'|] eqn:El; [|discriminate].
+  inversion H; subst l. destruct He as [He|He].
+  - subst e. left. symmetry. apply embedded_entry_name.
+  - right. destruct (raw_fields_names _ _ _ _ _ _ _ _ El (struct_fields_emb_named si) He) as [n [o [A [B C]]]].
+    destruct (level_fields_reprefix _ _ _ _ [] _ B) as [y [Hy Ey]].
+    apply in_flat_map. exists n. split; [apply in_seq; lia|].
+    apply in_map_iff. exists y. split.
+    + rewrite <- C. unfold occ_name. rewrite Ey. reflexivity.
+    + rewrite level_is_fields. exact Hy.
+Qed.
+
+Lemma raw_names_nodup : forall fl fd is_new names a,
+  raw_names fl fd is_new names = COk a -> NoDup names -> NoDup (map f_name a) /\ (forall e, In e a -> In (f_name e) names).
+Proof.
+  intros fl fd is_new names. induction names as [|n names IH]; intros a H ND; simpl in H.
+  - inversion H; subst. split; [constructor|intros e []].
+  - inversion ND; subst.
+    destruct (String.prefix "_" n).
+    { destruct (IH a H H3) as [I1 I2]. split; auto. intros e He. right. auto. }
+    destruct (tag_is_dash (fd_tag fd)).
+    { destruct (IH a H H3) as [I1 I2]. split; auto. intros e He. right. auto. }
+    destruct (if fl_getset fl then parse_get_set (fd_doc fd) n else Some (false, false)) as [[get set]|]; [|discriminate].
+    destruct (raw_names fl fd is_new names) as [r| |] eqn:Er; try discriminate.
+    inversion H; subst a. destruct (IH r eq_refl H3) as [I1 I2]. split.
+    + simpl. rewrite top_entry_name. constructor; auto. intros Hin. apply in_map_iff in Hin.
+      destruct Hin as [e [En He]]. apply H2. rewrite <- En. apply I2. exact He.
+    + intros e [He|He]; [subst e; rewrite top_entry_name; left; reflexivity|right; auto].
+Qed.
+
+Lemma app_eq_split : forall A (a b l1 l2 : list A) (e : A),
+  a ++ b = l1 ++ e :: l2 ->
+  (exists a2, a = l1 ++ e :: a2 /\ l2 = a2 ++ b) \/ (exists l1', l1 = a ++ l1' /\ b = l1' ++ e :: l2).
+Proof.
+  intros A a. induction a as [|x a IH]; intros b l1 l2 e H; simpl in H.
+  - right. exists l1. auto.
+  - destruct l1 as [|y l1]; simpl in H; inversion H; subst.
+    + left. exists a. auto.
+    + destruct (IH _ _ _ _ H2) as [[a2 [E1 E2]]|[l1' [E1 E2]]].
+      * left. exists a2. subst. auto.
+      * right. exists l1'. subst. auto.
+Qed.
+
+(* under the order-aware guard every marked entry is the first entry of its name *)
+Lemma raw_top_first : forall pkg fl fuel fds raw seen,
+  raw_top pkg fl fuel fds = COk raw ->
+  own_first pkg fuel fds seen = true ->
+  NoDup (map tf_name (flat_map tfields_of_decl fds)) ->
+  forall l1 e l2, raw = l1 ++ e :: l2 -> relevant e = true ->
+    ~ In (f_name e) (map f_name l1) /\ ~ In (f_name e) seen.
+Proof.
+  intros pkg fl fuel fds. induction fds as [|fd fds IH]; intros raw seen H OF ND l1 e l2 E R; simpl in H.
+  - inversion H; subst. destruct l1; discriminate.
+  - destruct (raw_decl pkg fl fuel fd) as [a| |] eqn:Ea; try discriminate.
+    destruct (raw_top pkg fl fuel fds) as [b| |] eqn:Eb; try discriminate.
+    injection H as Hab. rewrite <- Hab in E. clear Hab.
+    cbn [flat_map] in ND. rewrite map_app in ND.
+    assert (NDb : NoDup (map tf_name (flat_map tfields_of_decl fds))) by (eapply NoDup_app_tail; eauto).
+    cbn [own_first] in OF. unfold raw_decl in Ea.
+    destruct (app_eq_split _ _ _ _ _ _ E) as [[a2 [E1 E2]]|[l1' [E1 E2]]].
+    + (* the marked entry belongs to this declaration: it must be a named one *)
+      destruct (fd_names fd) as [|x names] eqn:EN.
+      * destruct (raw_type pkg fuel 0 [] (fd_ty fd) (parse_new_comment (fd_doc fd))) as [l|] eqn:Er; [|discriminate].
+        inversion Ea; subst a.
+        assert (He : In e (l1 ++ e :: a2)) by (apply in_or_app; right; left; reflexivity).
+        destruct (raw_type_no_gs _ _ _ _ _ _ _ Er e He) as [Hg Hs].
+        unfold relevant in R. rewrite Hg, Hs, andb_false_r in R. discriminate.
+      * apply andb_true_iff in OF. destruct OF as [OF1 OF2].
+        assert (NDn : NoDup (x :: names)).
+        { unfold tfields_of_decl in ND. rewrite EN in ND. apply NoDup_app_head in ND.
+          rewrite map_map in ND. unfold tf_name in ND. cbn [fst] in ND. rewrite map_id in ND. exact ND. }
+        destruct (raw_names_nodup _ _ _ _ _ Ea NDn) as [N1 N2].
+        rewrite E1 in N1. rewrite map_app in N1. cbn [map] in N1. split.
+        -- intros Hin. apply NoDup_remove_2 in N1. apply N1. apply in_or_app. left. exact Hin.
+        -- rewrite forallb_forall in OF1.
+           assert (He : In e a) by (rewrite E1; apply in_or_app; right; left; reflexivity).
+           specialize (OF1 _ (N2 e He)). apply negb_true_iff in OF1. intros Hin.
+           assert (existsb (String.eqb (f_name e)) seen = true) by (apply existsb_eqb_in; exact Hin). congruence.
+    + (* the marked entry belongs to a later declaration *)
+      assert (Heb : In e b) by (rewrite E2; apply in_or_app; right; left; reflexivity).
+      destruct (relevant_top _ _ _ _ _ _ Eb Heb R) as [_ Hown].
+      destruct (fd_names fd) as [|x names] eqn:EN.
+      * destruct (raw_type pkg fuel 0 [] (fd_ty fd) (parse_new_comment (fd_doc fd))) as [l|] eqn:Er; [|discriminate].
+        inversion Ea; subst a.
+        destruct (IH b (names_below pkg fuel (fd_ty fd) ++ seen) eq_refl OF NDb l1' e l2 E2 R) as [I1 I2].
+        split.
+        -- rewrite E1, map_app. intros Hin. apply in_app_or in Hin. destruct Hin as [Hin|Hin]; [|exact (I1 Hin)].
+           apply in_map_iff in Hin. destruct Hin as [e' [En He']]. apply I2. apply in_or_app. left.
+           rewrite <- En. eapply raw_type_names; eauto.
+        -- intros Hin. apply I2. apply in_or_app. right. exact Hin.
+      * apply andb_true_iff in OF. destruct OF as [OF1 OF2].
+        destruct (IH b seen eq_refl OF2 NDb l1' e l2 E2 R) as [I1 I2]. split; [|exact I2].
+        rewrite E1, map_app. intros Hin. apply in_app_or in Hin. destruct Hin as [Hin|Hin]; [|exact (I1 Hin)].
+        (* a name of this declaration equals a name of a later declaration: the struct declares it twice *)
+        apply in_map_iff in Hin. destruct Hin as [e' [En He']].
+        destruct (raw_names_facts _ _ _ _ _ _ Ea He') as [_ [_ [_ [Hn' _]]]].
+        eapply NoDup_app_disjoint; [exact ND| |].
+        -- unfold tfields_of_decl. rewrite EN. rewrite map_map. unfold tf_name. cbn [fst]. rewrite map_id. rewrite <- En in *. exact Hn'.
+        -- clear - Hown. induction fds as [|f fds IHf]; [destruct Hown|].
+           cbn [flat_map] in *. rewrite map_app. apply in_or_app. apply in_app_or in Hown. destruct Hown as [Ho|Ho]; [left|right; auto].
+           rewrite tfields_of_decl_names. destruct (fd_names f); [destruct Ho|exact Ho].
+Qed.
+
 Lemma raw_first_of_name : forall pkg fl fuel sd raw,
   raw_top pkg fl fuel (sd_fields sd) = COk raw -> c03_guard pkg fl fuel sd = true ->
   forall l1 e l2, raw = l1 ++ e :: l2 -> relevant e = true -> ~ In (f_name e) (map f_name l1).
 Proof.
-  intros pkg fl fuel sd raw Hraw G l1 e l2 E R Hin.
+  intros pkg fl fuel sd raw Hraw G l1 e l2 E R.
   destruct (c03_guard_parts _ _ _ _ G) as [G2 [_ [GO _]]].
-  destruct (c02_guard_parts _ _ _ G2) as [GB [GW [GU [GN [_ [_ [GX _]]]]]]].
-  assert (He : In e raw) by (rewrite E; apply in_or_app; right; left; reflexivity).
-  destruct (relevant_top _ _ _ _ _ _ Hraw He R) as [Hd Hown].
-  apply in_map_iff in Hin. destruct Hin as [e' [En He']].
-  assert (He'r : In e' raw) by (rewrite E; apply in_or_app; left; exact He').
-  pose proof (raw_levels pkg fl fuel sd raw e' Hraw GB GW GU GN GX He'r (f_depth e')) as LV.
-  destruct (f_depth e') as [|d] eqn:Ed.
-  - (* two entries of one name at depth 0: the struct would declare the name twice *)
-    assert (L2 : 2 <= length (filter (nd (f_name e') 0) raw)).
-    { rewrite E. apply (filter_two _ _ l1 e l2 e' He'); unfold nd.
-      - rewrite String.eqb_refl, Ed. reflexivity.
-      - rewrite <- En, String.eqb_refl, Hd. reflexivity. }
-    assert (L1 : length (candidates pkg 0 (self_inst sd) (f_name e')) <= 1).
-    { unfold candidates. cbn [level]. rewrite struct_fields_self.
-      assert (ND : NoDup (map tf_name (top_tfields sd))).
-      { unfold wf_structs in GW. apply andb_true_iff in GW. destruct GW as [GW _].
-        unfold fields_distinct in GW. rewrite struct_fields_self in GW. apply nodup_str_NoDup. exact GW. }
-      pose proof (filter_nodup_le1 (top_tfields sd) (f_name e') ND) as F.
-      rewrite filter_map_length. exact F. }
-    apply (f_equal (@length path)) in LV. rewrite !map_length in LV. lia.
-  - (* a deeper entry of the name: the name occurs below an embedded field *)
-    assert (Hc : In (f_path e') (map fst (candidates pkg (S d) (self_inst sd) (f_name e')))).
-    { rewrite <- LV. apply in_map. apply in_filter_nd. auto. }
-    apply in_map_iff in Hc. destruct Hc as [o [Ho Hc]]. unfold candidates in Hc.
-    apply filter_In in Hc. destruct Hc as [Hlev Hname].
-    assert (Hlt := depth_lt_fuel _ _ _ _ _ GB Hlev).
-    unfold own_names_fresh in GO. rewrite forallb_forall in GO.
-    specialize (GO o (in_all_occ _ _ _ _ _ Hlt Hlev)).
-    rewrite level_is_fields in Hlev. apply level_fields_path_len in Hlev. simpl in Hlev.
-    apply orb_true_iff in GO. destruct GO as [GO|GO].
-    + apply andb_true_iff in GO. destruct GO as [GO _]. apply Nat.eqb_eq in GO. unfold path, ident in *. lia.
-    + apply negb_true_iff in GO.
-      assert (existsb (String.eqb (occ_name o)) (own_names sd) = true).
-      { apply existsb_exists. exists (f_name e). split; [exact Hown|].
-        unfold named in Hname. apply String.eqb_eq in Hname.
-        assert (EQ : occ_name o = f_name e). { unfold occ_name. transitivity (f_name e'); [exact Hname|exact En]. }
-        rewrite EQ. apply String.eqb_refl. }
-      congruence.
+  destruct (c02_guard_parts _ _ _ G2) as [_ [GW _]].
+  assert (ND := top_names_nodup _ _ _ GW). unfold top_tfields in ND.
+  unfold own_names_fresh in GO.
+  destruct (raw_top_first pkg fl fuel (sd_fields sd) raw [] Hraw GO ND l1 e l2 E R) as [I _]. exact I.
 Qed.
 
 (* ------------------------------------------------------------ the accessor table *)
